@@ -1,1 +1,9 @@
-pub mod placeholder {}
+//! Node-level machinery shared by the chain-dependent engines: consensus construction, real
+//! node boot, block/tx builder, reference model (RefChain), store dumps.
+pub mod builder;
+pub mod consensus;
+pub mod dump;
+pub mod treegen;
+pub mod hooks;
+pub mod model;
+pub mod node;
